@@ -403,9 +403,12 @@ class MembersType(Type):
         presence_bits = 0
         addition_encoders = []
 
+        number_of_presence_bits = 0
+
         try:
             for addition in self.additions:
                 presence_bits <<= 1
+                number_of_presence_bits += 1
                 addition_encoder = Encoder()
                 self.encode_member(addition,
                                    data,
@@ -424,6 +427,7 @@ class MembersType(Type):
 
         # Presence bit field.
         number_of_additions = len(self.additions)
+        presence_bits <<= (number_of_additions - number_of_presence_bits)
         number_of_unused_bits = (-number_of_additions % 8)
         encoder.append_length_determinant(((number_of_additions + 7) // 8) + 1)
         encoder.append_non_negative_binary_integer(number_of_unused_bits, 8)
